@@ -101,6 +101,25 @@ let arg_of kind s = match kind with
 let sev_of = function 0 -> Pedantic | 1 -> Wishlist | 2 -> Minor | 3 -> Normal | 4 -> Important | _ -> Serious
 let cer_of = function 0 -> WildGuess | 1 -> Possible | _ -> Certain
 
+(* ---------- msgformat ---------- *)
+let key_s = function KInt z -> "i" ^ zs z | KStr s -> out_str s
+let types_s l = String.concat "," (List.map out_str l)
+let adiag_s = function
+  | AExcess (nd, ns) -> Printf.sprintf "excess %d %d" (int_of_nat nd) (int_of_nat ns)
+  | AMissingN (nd, ns) -> Printf.sprintf "missing-n %d %d" (int_of_nat nd) (int_of_nat ns)
+  | ANumber (nd, ns) -> Printf.sprintf "number %d %d" (int_of_nat nd) (int_of_nat ns)
+  | ATypeMismatch (dt, st) -> "type " ^ types_s dt ^ " != " ^ types_s st
+  | AUnknown k -> "unknown " ^ key_s k
+  | AMissing k -> "missing " ^ key_s k
+let adiags_s l = if l = [] then "none" else String.concat " | " (List.map adiag_s l)
+(* a cursor over the argument array *)
+let cursor (a : string array) = let pos = ref 0 in (fun () -> let v = a.(!pos) in incr pos; v)
+let rd_list next f = let n = arg_int (next ()) in List.init n (fun _ -> f ())
+let rd_key next = let t = next () in if t.[0] = 'i' then KInt (arg_z (String.sub t 1 (String.length t - 1))) else KStr (arg_str t)
+let rd_amap next = rd_list next (fun () ->
+  let k = rd_key next in let ts = rd_list next (fun () -> arg_str (next ())) in let b = arg_bool (next ()) in ((k, ts), b))
+let loc_s = function LMsgid -> "msgid" | LMsgidPlural -> "msgid_plural" | LMsgstr -> "msgstr" | LMsgstrN i -> "msgstr[" ^ zs i ^ "]"
+
 (* ---------- dispatch ---------- *)
 let handle (op : string) (a : string array) : string =
   match op with
@@ -139,6 +158,49 @@ let handle (op : string) (a : string array) : string =
     let nargs = arg_int a.(6) in
     let extra = List.init nargs (fun i -> arg_of a.(7 + 2 * i) a.(8 + 2 * i)) in
     out_str (format_line u_printable prio (arg_str a.(2)) (arg_str a.(3)) (arg_str a.(4)) (arg_str a.(5)) extra)
+  | "cargs" -> (* omit  nsrc types..  ndst types..  lastint-bits *)
+    let next = cursor a in
+    let om = arg_bool (next ()) in
+    let src = rd_list next (fun () -> arg_str (next ())) in
+    let dst = rd_list next (fun () -> arg_str (next ())) in
+    let bits = next () in
+    let li n = let i = int_of_nat n in i >= 1 && i < String.length bits && bits.[i] = '1' in
+    adiags_s (c_check_args src dst li om)
+  | "pyargs" ->
+    let next = cursor a in
+    let om = arg_bool (next ()) in
+    let ss = rd_list next (fun () -> arg_str (next ())) in
+    let ds = rd_list next (fun () -> arg_str (next ())) in
+    let sm = rd_amap next in let dm = rd_amap next in
+    adiags_s (py_check_args ss ds sm dm om)
+  | "braceargs" ->
+    let next = cursor a in
+    let om = arg_bool (next ()) in
+    let sm = rd_amap next in let dm = rd_amap next in
+    adiags_s (map_check_args true sm dm om)
+  | "perlargs" ->
+    let next = cursor a in
+    let om = arg_bool (next ()) in
+    let src = rd_list next (fun () -> rd_key next) in
+    let dst = rd_list next (fun () -> rd_key next) in
+    adiags_s (perl_check_args src dst om)
+  | "plan" -> (* template fuzzy enc msgid_ok has_plural plural_ok lens_equal msgstr(0 none,1 bad,2 ok) nplurals (i ok).. any_nonempty preimage(-1 none | n (k m vals..)..) rmin rmax *)
+    let next = cursor a in
+    let b () = arg_bool (next ()) in
+    let template = b () in let fuzzy = b () in let enc = b () in let msgid_ok = b () in
+    let has_plural = b () in let plural_ok = b () in let lens_equal = b () in
+    let msgstr = (match next () with "0" -> None | "1" -> Some false | _ -> Some true) in
+    let plurals = rd_list next (fun () -> let i = arg_z (next ()) in let ok = b () in (i, ok)) in
+    let any_ne = b () in
+    let np = arg_int (next ()) in
+    let pre = if np < 0 then None else Some (List.init np (fun _ -> let k = arg_z (next ()) in let vs = rd_list next (fun () -> arg_z (next ())) in (k, vs))) in
+    let rmin = arg_z (next ()) in let rmax = arg_z (next ()) in
+    let m = { mi_template = template; mi_fuzzy = fuzzy; mi_encoding_known = enc; mi_msgid_ok = msgid_ok;
+              mi_has_plural = has_plural; mi_plural_ok = plural_ok; mi_lens_equal = lens_equal; mi_msgstr = msgstr;
+              mi_plurals = plurals; mi_any_plural_nonempty = any_ne; mi_preimage = pre; mi_rmin = rmin; mi_rmax = rmax } in
+    let ivs = plan_message m in
+    if ivs = [] then "none" else String.concat " | " (List.map (fun iv ->
+      loc_s iv.iv_src ^ " -> " ^ loc_s iv.iv_dst ^ (if iv.iv_omit_ok then " omit-ok" else " strict")) ivs)
   | _ -> "unknown-op " ^ op
 
 let () =
